@@ -44,6 +44,12 @@ CHECKS.update({
         note='Trusted: symnp engine, z3 (QF_UFNRA), the 60-line reference interpreter in harness/c04.py. Leaves are deterministic functions of their argument.',
         ref='DESIGN.md section 4 C04'),
 })
+CHECKS.update({
+    'C02': dict(
+        text='x.inner(y), x.norm(), x.dist(y) of tensor (none/constant/array weighting; C/F/mixed layouts; real/complex), product (component weights) and discretized spaces (every nodes_on_bdry choice per side) are executed on symbolic elements; z3 decides equality with the documented weighted sums (weights of discretized spaces taken independently from partition.cell_sizes_vecs; |one|^2 = domain volume), norm^2 = inner(x,x) via the radicand of the code\'s own sqrt, p-norms for p in {1, inf, 3/2, 3} (pow uninterpreted, congruence), and the axioms: conjugate symmetry, linearity, positivity, definiteness, Cauchy-Schwarz (n<=3), homogeneity, triangle inequality (p=2: n<=2; p in {1,inf}: n=2), dist = norm of the difference, symmetry.',
+        note='Trusted: symnp engine (BLAS nrm2/dot and np.linalg.norm contract stubs, validated by concrete shadow runs), z3. Exact where weights are dyadic, 1e-9 box tolerance where sqrt(fraction) scalings enter. One known finding (cell volume exactly 1 with nodes on the boundary).',
+        ref='DESIGN.md section 4 C02'),
+})
 NOT_YET = {}
 
 
